@@ -537,7 +537,17 @@ impl JpegBitstreamReconstructor<'_, '_, '_> {
                     .map_err(Error::ReconstructionWrite)?;
 
                 let comps = &si.component_info;
+                // Frames carry at most three components.
+                let num_components = self.header.components.len().min(3);
                 for c in comps {
+                    if c.comp_idx as usize >= num_components {
+                        tracing::error!(
+                            c.comp_idx,
+                            num_components,
+                            "Invalid component index in SOS marker"
+                        );
+                        return Err(Error::InvalidData);
+                    }
                     let id = self.header.components[c.comp_idx as usize].id;
                     let table = (c.dc_tbl_idx << 4) | c.ac_tbl_idx;
                     writer
